@@ -43,7 +43,7 @@ Theorem C15_join_assoc : forall a x y, relb a = true -> relb x = true -> relb y 
 Proof. exact join_assoc_rel. Qed.
 Print Assumptions C15_join_assoc.
 
-(** the prefix S3Client::new stores (s3.rs:741, since /repo commit 1405318) never ends with a
+(** the prefix S3Client::new stores (s3.rs:777, since /repo commit 1405318) never ends with a
     slash and differs from the given value by trailing slashes only *)
 Theorem C15_client_prefix_trimmed : forall raw,
   pfx_ok (client_prefix raw) = true /\ exists n, raw = client_prefix raw ++ repeat slash n.
@@ -102,8 +102,8 @@ Theorem C15_below_path_segments : forall dir rel,
 Proof. exact below_segments. Qed.
 Print Assumptions C15_below_path_segments.
 
-(** the recursive listing of a directory path (list_objects, s3.rs:754-756, with the prefix
-    built by join_with_trailing_slash, s3.rs:761) returns exactly the stored paths below
+(** the recursive listing of a directory path (list_objects, s3.rs:790-792, with the prefix
+    built by join_with_trailing_slash, s3.rs:797) returns exactly the stored paths below
     "path/": each once, in key order, nothing of a sibling; every prefix value, every path *)
 Theorem C15_list_objects_below_path : forall keys raw path,
   let cprefix := client_prefix raw in
@@ -115,7 +115,7 @@ Theorem C15_list_objects_below_path : forall keys raw path,
 Proof. intros keys raw path. apply list_objects_below_lemma, client_prefix_pfx_ok. Qed.
 Print Assumptions C15_list_objects_below_path.
 
-(** purge_object (s3.rs:557-594) without a failing request: succeeds, deletes exactly the keys
+(** purge_object (s3.rs:593-630) without a failing request: succeeds, deletes exactly the keys
     below "<prefix>/<root>/" (one DELETE each, in key order) and keeps every other key with its
     content - as remove_dir_all of the object root does on the file system *)
 Theorem C15_purge_exact : forall raw root bk,
@@ -127,6 +127,32 @@ Theorem C15_purge_exact : forall raw root bk,
   st_log (snd out) = map RDelete (filter (starts_with (under cprefix (root ++ [slash]))) (bk_keys bk)).
 Proof. intros raw root bk. apply purge_exact_lemma, client_prefix_pfx_ok. Qed.
 Print Assumptions C15_purge_exact.
+
+(** every root S3OcflStore::write_new_object accepts for a new object (validate_object_root,
+    s3.rs:242-274) is a normalised relative path - no empty, "." or ".." part, hence not empty
+    and no slash at either end - outside extensions/: the hypothesis [relb root] of the listing
+    and purge theorems above holds for every object the store itself created *)
+Theorem C15_validated_root_is_relative : forall keys raw root,
+  s3_validate_object_root keys (client_prefix raw) root = Ok tt ->
+  relb root = true /\ Forall plain_part (segments root) /\ hd [] (segments root) <> K_EXTENSIONS_DIR.
+Proof. intros keys raw root. apply validated_root_lemma. Qed.
+Print Assumptions C15_validated_root_is_relative.
+
+Theorem C15_validate_root_cases :
+  let keys := [b "p/obj1/0=ocfl_object_1.0"; b "p/obj1/v1/content/a"; b "p/coll/obj2/0=ocfl_object_1.1"] in
+  s3_validate_object_root keys (b "p") (b "obj10") = Ok tt /\
+  s3_validate_object_root keys (b "p") (b "coll/obj3") = Ok tt /\
+  s3_validate_object_root keys (b "p") (b "obj1/sub") = Err /\
+  s3_validate_object_root keys (b "p") (b "obj1/v1/content") = Err /\
+  s3_validate_object_root keys (b "p") (b "coll/obj2/x") = Err /\
+  s3_validate_object_root keys (b "p") (b "extensions/e1") = Err /\
+  s3_validate_object_root keys (b "p") (b "../out") = Err /\
+  s3_validate_object_root keys (b "p") (b "a//b") = Err /\
+  s3_validate_object_root keys (b "p") (b "./x") = Err /\
+  s3_validate_object_root keys (b "p") (b "a/b/") = Err /\
+  s3_validate_object_root keys (b "p") (b "") = Err.
+Proof. exact validate_root_cases. Qed.
+Print Assumptions C15_validate_root_cases.
 
 (** the former known finding prefix-trailing-slash as a regression statement: prefixes given
     as "pre/", "pre//", "/" (only slashes = bucket root) and "/pre" (leading slash kept) *)
